@@ -137,6 +137,8 @@ def _crash_enum(ctx):
     prop, tier, wd, rng = ctx["prop"], ctx["tier"], ctx["wd"], ctx["rng"]
     C.go_build(["crashdrive"])
     nh, maxp = (5, 40) if tier == "quick" else (60, None)
+    if ctx.get("crash_small"):
+        nh, maxp = (2, 30) if tier == "quick" else (20, None)
     hists = []
     cdir = os.path.join(C.VERIF, "corpus", prop)
     if os.path.isdir(cdir):
@@ -155,20 +157,31 @@ def _crash_enum(ctx):
     viol, points, torn, calls = [], 0, 0, 0
     samples = []
     for hp in hists:
-        n, nt, fails, nc = crash.enumerate_history(hp, cw, rng, max_points=maxp)
+        n, nt, fails, nc = crash.enumerate_history(hp, cw, rng, max_points=maxp, keep_writes=(4 if ctx.get("crash_small") else 0))
         points += n; torn += nt; calls += nc
         if len(samples) < 2:
             samples.append({"crash_history": open(hp).read().strip().split("\n")[:14], "kill_points": n, "torn_variants": nt})
         for f in fails[:2]:
             txt = open(hp).read()
             rp = C.save_replay(prop, "crash-%s.crashhist" % hashlib.sha1((txt + f["what"]).encode()).hexdigest()[:10],
-                               "# C03 fails on the implementation: %s\n# crash point: %s\n# directory image left by the crash: %s (acknowledged ops: %s)\n"
-                               "# replay: cd /verif && ./check C03 --replay <this file>   (re-enumerates every crash point of this history)\n%s"
-                               % (f["bad"], f["what"], f["image"], f["ack"], txt))
+                               "# %s fails on the implementation: %s\n# crash point: %s\n# directory image left by the crash: %s (acknowledged ops: %s)\n"
+                               "# replay: cd /verif && ./check %s --replay <this file>   (re-enumerates every crash point of this history)\n%s"
+                               % (prop, f["bad"], f["what"], f["image"], f["ack"], prop, txt))
             viol.append(("crash enumeration: %s [%s]" % (f["bad"], f["what"]), rp, True))
         if viol:
             break
+    # byte-level tie of the recovery's primary trim: what Open made of the last primary file of every crash image, replayed on Trimb.trim_len
+    trims = sorted(set(crash.TRIMS))
+    torn_tails = sum(1 for hx, n in trims if n != len(hx) // 2)
+    tterms = [("%s -> %d" % (hx, n), "  ([%s], %d)" % (";".join(str(b) for b in bytes.fromhex(hx)), n)) for hx, n in trims[:600]]
+    tmism, tcoq = C.coq_replay(tterms, cw, header="From STH Require Import Store Trimb.\nFrom Coq Require Import List NArith. Import ListNotations. Open Scope N_scope.\n",
+                               ctor_list="trim_case", fn="trim_mismatches") if tterms else ([], 0.0)
+    if tmism and not viol:
+        rp = C.save_replay(prop, "trimcorr.txt", "correspondence obligation broken: Trimb.trim_len (coq/theories/Trimb.v) and MultihashPrimary Open disagree about where the last primary file of a crash image\n"
+                           "is cut (bytes of the file as the crash left it -> length after Open), on %d of %d images; first: %s\n" % (len(tmism), len(tterms), tmism[0][0]))
+        viol.append(("correspondence: the model of the primary trim and Open disagree on %d of %d crash images" % (len(tmism), len(tterms)), rp, False))
     return viol, {"evaluations": points + torn, "crash_points": points, "torn_write_variants": torn, "file_system_calls_traced": calls,
+                  "primary_trim_images_replayed": len(tterms), "primary_trim_images_with_a_torn_tail": torn_tails, "primary_trim_mismatches": len(tmism),
                   "crash_histories": len(hists), "samples": samples,
                   "crash_rule": "each history runs in a child under strace; SIGKILL is delivered on entering the K-th file-system call for every K whose "
                                 "predecessor changed the store directory (quick: a sample of 40 per history); when the killed call is a write/pwrite64 its data is "
@@ -183,7 +196,7 @@ CHECKS["C03"] = Spec(
     aspects=("map", "crash"),
     quick_n=120, thorough_n=3000,
     witnesses=["F8-close-writes-index-before-primary", "F11-stale-record-relocated-after-crash", "F12-gc-before-flush-then-crash",
-               "F12b-writer-inside-commit-then-crash", "F13-torn-index-size-prefix", "F19-torn-freelist-entry"],
+               "F12b-writer-inside-commit-then-crash", "F13-torn-index-size-prefix", "F19-torn-freelist-entry", "F20-torn-primary-record"],
     tools=["sthdrive", "witness", "crashdrive"],
     nontrivial=lambda t, r: any("crash_keep" in (x.get("extra") or {}) and 0 < (x["extra"]["crash_of"]) for x in r),
     rule=_KEYS_RULE + "record-granular crash cuts: before a Flush the harness fixes a cut (N mod records+1), builds the directory image a crash after that many "
@@ -1062,6 +1075,8 @@ CHECKS["C07"] = Spec(
               (0.3, dict(weights=dict(put=40, remove=14, flush=12, pgc=5, pgcl=7, pgcb=2, igcb=8, igc=4, reopen=3)))],
     keep=("res", "tbl", "img"),
     aspects=("map", "fsck", "dir", "rl"),
+    tools=["sthdrive", "witness", "crashdrive"],
+    extra=lambda ctx: _crash_enum(dict(ctx, crash_small=True)),    # "after recovery from any crash": the independent reader runs on what every crash point leaves
     nontrivial=lambda t, r: _count_ops(t, ("flush",)) >= 2 and _count_ops(t, ("pgc", "igc", "pgcb", "igcb", "pgcl")) >= 1 and _count_ops(t, ("put",)) >= 4,
     rule=_KEYS_RULE + "flushes, both collectors (also budget-interrupted), reopen, writers slipping into a Flush; after every Flush, every GC cycle and every reopen an independent reader "
          "of the formats (harness/fsck) checks on the REAL files against the live bucket table: every file is a chain of records; every non-empty bucket points at a complete, non-deleted "
